@@ -27,8 +27,9 @@ SIM_HOME = "home/user"      # what ~ expands to inside the simulation (a SimFS d
 REPO = os.environ.get("VERIF_REPO", "/repo")
 
 
-class HarnessError(Exception):
-    """Something is wrong with the machinery (never a verdict about the repository)."""
+class HarnessError(BaseException):
+    """Something is wrong with the machinery (never a verdict about the repository).
+    A BaseException, so that the repository's own ``except Exception`` clauses cannot turn it into a tool message."""
 
 
 class StepBudgetExceeded(BaseException):
@@ -243,6 +244,7 @@ class SimFS(object):
     def __init__(self, log):
         self.files = {}
         self.symlinks = {}        # key -> target: symbolic links (to directories or files)
+        self.fds = {}             # simulated file descriptors handed out by os.open
         self.cwd = ""             # simulated working directory of the current process, relative to SIM_ROOT
         self.log = log
         self.faults = {}          # path -> ("read_error", errno) consumed on open for reading
@@ -485,11 +487,57 @@ class _Seams(object):
                 return real_listdir(path)
             return fs.listdir(key)
 
+        real_fdopen, real_close, real_write = os.fdopen, os.close, os.write
+        fds = fs.fds
+
         def sim_os_open(path, flags, *a, **kw):
             key = fs.route(path)
             if key is None:
                 return real_os_open(path, flags, *a, **kw)
-            raise HarnessError("os.open on a simulated path (%r): seam not modelled" % (path,))
+            acc = flags & (os.O_WRONLY | os.O_RDWR)
+            if acc == 0:
+                mode = "rb"
+            else:
+                if flags & os.O_EXCL and flags & os.O_CREAT and key in fs.files:
+                    raise FileExistsError(errno.EEXIST, os.strerror(errno.EEXIST), path)
+                if key not in fs.files and not flags & os.O_CREAT:
+                    raise FileNotFoundError(errno.ENOENT, os.strerror(errno.ENOENT), path)
+                if flags & os.O_TRUNC:
+                    mode = "wb"
+                elif flags & os.O_APPEND:
+                    mode = "ab"
+                else:
+                    if key not in fs.files:           # O_CREAT without O_TRUNC: create empty, then update in place
+                        fs.files[key] = b""
+                        fs.log.add("CREATE", key)
+                    mode = "r+b"
+            handle = fs.open(key, mode, shown=os.fspath(path))
+            fd = 100000 + len(fds)
+            fds[fd] = handle
+            return fd
+
+        def sim_fdopen(fd, mode="r", *a, **kw):
+            if fd in fds:
+                handle = fds[fd]
+                if "b" in mode:
+                    return handle
+                return io.TextIOWrapper(handle, encoding=kw.get("encoding") or "utf-8", write_through=True)
+            return real_fdopen(fd, mode, *a, **kw)
+
+        def sim_close(fd):
+            if fd in fds:
+                fds.pop(fd).close()
+                return None
+            return real_close(fd)
+
+        def sim_write(fd, data):
+            if fd in fds:
+                return fds[fd].write(data)
+            return real_write(fd, data)
+
+        self._patch(os, "fdopen", sim_fdopen)
+        self._patch(os, "close", sim_close)
+        self._patch(os, "write", sim_write)
 
         real_expanduser = posixpath.expanduser
         real_chdir, real_getcwd = os.chdir, os.getcwd
